@@ -342,6 +342,26 @@ def run(ctx):
             r.check("call(" in recv and "branch(" in recv, "add_lane/id-from-store_id#%d" % n, c.loc(), "that id is the (error-propagated) result of the store_id look-up")
         if n < 2:
             raise AnchorMissing("add_lane: expected the value and map arms to build an initialiser from the store id (found %d)" % n)
+        # ... and what add_lane hands back for persisting is that same id, untouched: the component of the pair the initialiser came from
+        li = [c for c in al.calls if c.name == "lane_initialization"]
+        if len(li) != 1:
+            raise AnchorMissing("add_lane: expected one lane_initialization call, found %d" % len(li))
+        init_pl = op_place(li[0].args[-1])
+        from rules.common import ty_of
+        rets = [(i, rv) for i, j, p, rv, line in al.assigns() if rv[0] == "agg" and rv[1].get("tuple") and len(rv[2]) == 2 and ty_of(al, rv[2][0]).endswith("task::LaneEndpoint<swimos_byte_channel::channel::ByteReader>") or
+                (rv[0] == "agg" and rv[1].get("tuple") and len(rv[2]) == 2 and "LaneEndpoint" in ty_of(al, rv[2][0]))]
+        rets = [(i, rv) for i, rv in rets if al.reaches(li[0].block, {i})]
+        if len(rets) != 1 or init_pl is None:
+            raise AnchorMissing("add_lane: the (endpoint, store id) pair returned on the restored path (found %d)" % len(rets))
+        id_pl = op_place(rets[0][1][2][1])
+        p_init = al.resolve(init_pl)
+        p_id = al.resolve(id_pl) if id_pl is not None else None
+        # the pair built by the match on the lane kind is (id looked up, initialiser made from it): the id handed back is component 0 of the pair whose
+        # component 1 is the initialiser that ran
+        same = p_id is not None and p_id.root == p_init.root and tuple(p_id.fields) == ("0",) and tuple(p_init.fields)[:1] == ("1",)
+        r.check(same, "add_lane/returned-id=looked-up-id", al.loc(al.blocks[rets[0][0]]["t"].get("line")), "the id returned for persisting is the id the lane was restored from (%s)" % describe_operand(al, rets[0][1][2][1])[:40],
+                "add_lane returns `%s` as the id to persist under, not the id it looked up and restored from: a persistent lane registered after initialisation is restored from the store but its later states are "
+                "never handed to the store (or go under another id)" % describe_operand(al, rets[0][1][2][1])[:80])
         inits = {cb.defpath: [x.via_name for x in cb.calls if x.via_name in ("init_value_store", "init_map_store")] for cb in rt.closures_of(al.defpath)}
         for dp, nm in sorted(inits.items()):
             for m in nm:
